@@ -103,12 +103,14 @@ def _format_binary_recurse(something) -> bytes:
         return b'u' + something.bytes
     elif isinstance(something, binary):
         return b'b' + struct.pack('!i', len(something)) + something
+    elif isinstance(something, uri):
+        # Has to come before the string case, `uri` is a `str` subclass
+        something = something.encode("utf8")
+        return b'l' + struct.pack('!i', len(something)) + something
     elif is_string(something):
         if is_unicode(something):
             something = something.encode("utf8")
         return b's' + struct.pack('!i', len(something)) + something
-    elif isinstance(something, uri):
-        return b'l' + struct.pack('!i', len(something)) + something.encode("utf8")
     elif isinstance(something, datetime.datetime):
         if something.tzinfo is None:
             # Naive datetimes are UTC in LLSD, timestamp() would treat them as local time
